@@ -24,6 +24,7 @@ Fails(r) ==
   \cup F("EW_WeightsEqual", r.weightsEqual)
   \cup F("EW_WeightedUnchanged", r.weightedUnchanged)
   \cup F("EW_StoredUnchanged", r.storedUnchanged)
+  \cup F("EW_DictSame", r.dictSame)          \* return_as_dict=True returns the same rows, weights and blobs
 TInit == l = 0 /\ rows = <<>> /\ us = <<>> /\ out = <<>>
 TNext == /\ l < Len(Log) /\ l' = l + 1 /\ UNCHANGED vars
          /\ LET f == Fails(Log[l + 1]) IN f = {} \/ PrintT(<<"@@F", l + 1, f>>)
